@@ -15,13 +15,18 @@ _LINE = re.compile(r"^known:\s+property=(\S+)\s+site=(\S+)\s+class=(\S+)\s+::\s*
 
 def load_known(prop):
     out = []
-    if not os.path.exists(PATH):
-        return out
-    for line in open(PATH):
-        line = line.strip()
-        m = _LINE.match(line)
-        if m and m.group(1) == prop:
-            out.append({"site": m.group(2), "class": m.group(3), "text": m.group(4)})
+    paths = [PATH]
+    d = os.path.join(VERIF, "known_findings.d")
+    if os.path.isdir(d):
+        paths += sorted(os.path.join(d, f) for f in os.listdir(d) if f.endswith(".txt"))
+    for path in paths:
+        if not os.path.exists(path):
+            continue
+        for line in open(path):
+            line = line.strip()
+            m = _LINE.match(line)
+            if m and m.group(1) == prop:
+                out.append({"site": m.group(2), "class": m.group(3), "text": m.group(4)})
     return out
 
 
